@@ -2238,6 +2238,14 @@ ftpReadTransferDone(Ftp::Gateway * ftpState)
 
     if (code == 226 || code == 250) {
         /* Connection closed; retrieval done. */
+        if (ftpState->flags.isdir && !ftpState->flags.listing) {
+            // An empty directory: the data connection closed before any
+            // listing byte arrived, so processReplyBody() never started the
+            // listing. Build the (empty) listing page instead of leaving an
+            // empty StoreEntry behind a "whole reply" mark.
+            ftpState->flags.listing = 1;
+            ftpState->listing.reset();
+        }
         if (ftpState->flags.listing) {
             ftpState->completedListing();
             /* QUIT operation handles sending the reply to client */
